@@ -37,7 +37,7 @@ theorem bytesOk_of_all {f : Array Nat} (h : f.toList.all (fun x => decide (x < 2
 
 def nameGoodB (e : Bytes) : Bool :=
   match fileNameToSplit e with
-  | some (nm, ty) => decide (entName e = (if ty = [] then nm else nm ++ [46] ++ ty)) && !ty.contains 46
+  | some (nm, ty) => decide (entName e = (if ty = [] then nm else nm ++ [46] ++ ty)) && !nm.contains 46 && !ty.contains 46
   | none => false
 
 theorem nameGood_of_check {e : Bytes} (h : nameGoodB e = true) : NameGood e := by
@@ -48,7 +48,7 @@ theorem nameGood_of_check {e : Bytes} (h : nameGoodB e = true) : NameGood e := b
     obtain ⟨nm, ty⟩ := nt
     rw [hn] at h
     simp only [Bool.and_eq_true, decide_eq_true_eq, Bool.not_eq_true'] at h
-    exact ⟨nm, ty, hn, h.1, by simpa using h.2⟩
+    exact ⟨nm, ty, hn, h.1.1, by simpa using h.1.2, by simpa using h.2⟩
 
 def rootOkB (d : Disk) : Bool :=
   (dirOfBytes (rootBuf d)).all (fun e =>
@@ -64,6 +64,35 @@ theorem rootOk_of_check {d : Disk} (h : rootOkB d = true) : RootOk d := by
   · exact absurd h h5
   · exact absurd h hl
   · exact ⟨h.1.1, h.1.2, nameGood_of_check h.2⟩
+
+/-- checkable form of `TailZero`: once a first name byte is 0, all later ones are -/
+def tailZeroB : List Bytes → Bool
+  | [] => true
+  | e :: es => (if e.getD 0 0 = 0 then es.all (fun x => x.getD 0 0 == 0) else true) && tailZeroB es
+
+theorem tailZero_of_check : ∀ {E : List Bytes}, tailZeroB E = true → TailZero E := by
+  intro E
+  induction E with
+  | nil => intro _ i j e1 e2 _ h1; simp at h1
+  | cons a t ih =>
+    intro h i j e1 e2 hij h1 h2 hz
+    simp only [tailZeroB, Bool.and_eq_true] at h
+    cases j with
+    | zero => omega
+    | succ j =>
+      rw [List.getElem?_cons_succ] at h2
+      cases i with
+      | zero =>
+        rw [List.getElem?_cons_zero] at h1
+        injection h1 with h1
+        subst h1
+        have h' := h.1
+        rw [if_pos hz, List.all_eq_true] at h'
+        have := h' e2 (List.mem_of_getElem? h2)
+        simpa using this
+      | succ i =>
+        rw [List.getElem?_cons_succ] at h1
+        exact ih h.2 i j e1 e2 (by omega) h1 h2 hz
 
 def exFat : Array Nat := exDisk.fat.getD #[]
 
@@ -125,6 +154,7 @@ theorem exDisk_inv : Inv exDisk where
   geo := exDisk_geo
   coh := ⟨exFat, exDisk_coh⟩
   root := rootOk_of_check (by decide +kernel)
+  tail := tailZero_of_check (by decide +kernel)
   read := exDisk_read
 
 end A2Verif.FsFat
